@@ -124,6 +124,10 @@ impl<'a> LuaDocument<'a> {
     pub fn to_rowan_range(&self, range: lsp_types::Range) -> Option<TextRange> {
         let start = self.get_offset(range.start.line as usize, range.start.character as usize)?;
         let end = self.get_offset(range.end.line as usize, range.end.character as usize)?;
+        // a client may send a range whose start is after its end; `TextRange::new` would panic
+        if start > end {
+            return None;
+        }
         Some(TextRange::new(start, end))
     }
 
@@ -225,6 +229,26 @@ mod tests {
         let rowan_range = document.to_rowan_range(lsp_range).unwrap();
         assert_eq!(rowan_range.start(), TextSize::from(6));
         assert_eq!(rowan_range.end(), TextSize::from(11));
+    }
+
+    #[test]
+    fn test_to_rowan_range_reversed() {
+        let code = "line1\nline2\nline3";
+        let mut vfs = create_vfs();
+        let vg = VirtualUrlGenerator::new();
+        let uri = vg.new_uri("reversed.lua");
+        let id = vfs.set_file_content(&uri, Some(code.to_string()));
+        let document = vfs.get_document(&id).unwrap();
+
+        let reversed = lsp_types::Range::new(Position::new(0, 5), Position::new(0, 1));
+        assert_eq!(document.to_rowan_range(reversed), None);
+        let reversed_lines = lsp_types::Range::new(Position::new(2, 0), Position::new(1, 0));
+        assert_eq!(document.to_rowan_range(reversed_lines), None);
+        let empty = lsp_types::Range::new(Position::new(1, 2), Position::new(1, 2));
+        assert_eq!(
+            document.to_rowan_range(empty),
+            Some(TextRange::empty(TextSize::from(8)))
+        );
     }
 
     #[test]
